@@ -200,3 +200,283 @@ Theorem slice_carries_position :
   forall lbrack x lo hi st f,
     last_insn (compile_slice lbrack x lo hi st f) = Some (mkeinsn OSlice (Some lbrack)).
 Proof. exact slice_carries_position_lemma. Qed.
+
+(* ======================================================================
+   fallible_has_pos: "the innermost frame identifies the operation that failed".
+   Over C01's models of the interpreter loop (C01/VM.v) and of the code generator
+   (C01/Compile.v: fcomp.stmt / expr / assign / call / args / comprehension /
+   ifelse for the whole input language of Compile.v -- every statement and
+   expression form of the core language except lambda and closures over
+   enclosing functions' variables, which Compile.v rejects as unsupported, so
+   the opcodes FREECELL / LOCALCELL are classified but never generated).
+   C01's instructions carry the (line, col) fields of compile.go's insn as an
+   operand exactly when the generator emits them after a setPos.
+   Definitions: C16/FallibleSpec.v (opcode, fallible, insn_pos, site_of and the
+   specification op_pos_*: the operations of a syntax tree in evaluation order
+   with the token position compile.go reports for each; no instruction appears
+   in it).  Proofs: FallibleVM.v, FallibleGen.v, FallibleTable.v.
+   The folding of literal runs in + chains (Compile.fold_prog; compile.go
+   fcomp.plus) is covered separately below (fold_keeps_positions,
+   folded_fallible_has_pos; FallibleFold.v).  Not covered: slot numbering
+   (Compile.number_prog, the resolver's part: the specification is read on the
+   resolved tree, as compile.go reads it); PREDECLARED, which the real
+   interpreter can fail on for an uninitialised predeclared name (an embedding
+   error) and C01's VM treats as infallible.
+   ====================================================================== *)
+From Coq Require Import String Lia ZifyBool.
+From SV Require Import C01.Syntax C01.Values C01.Ref C01.VM C01.Compile.
+From SV Require Import C16.FallibleSpec C16.FallibleVM C16.FallibleGen C16.FallibleFold C16.FallibleTable.
+Open Scope Z_scope.
+
+(* infallible_never_fails.  The classification `fallible` is sound for VM.v: an
+   instruction whose opcode is not fallible never ends a step with an error, in
+   any frame, on any stack, globals and heap. *)
+Theorem infallible_never_fails :
+  forall cp fname i f rest g w p ic w',
+    fallible (op i) = false -> exec_insn cp fname i f rest g w <> Stop (VFail p ic w').
+Proof. exact infallible_never_fails_lemma. Qed.
+
+(* ... and exact: an opcode is fallible iff some instruction with that opcode ends
+   some step with an error (the 19 witnesses are evaluated inside Coq). *)
+Theorem fallible_iff_can_fail :
+  forall o, fallible o = true <->
+    exists cp fname i f rest g w p ic w',
+      op i = o /\ exec_insn cp fname i f rest g w = Stop (VFail p ic w').
+Proof. exact fallible_iff_can_fail_lemma. Qed.
+
+(* What a failing step reports: the instruction at the pc of the innermost frame
+   has a fallible opcode and the error carries the position that instruction
+   carries (also when the failure is that of binding the arguments in the
+   callee: the position of the CALL). *)
+Theorem failure_reports_carried_position :
+  forall cp fname s p ic w',
+    VM.step cp fname s = Stop (VFail p ic w') ->
+    exists f rest i, vs_frames s = f :: rest /\ nth_error (fr_code f) (fr_pc f) = Some i /\
+                     fallible (op i) = true /\ insn_pos i = Some p.
+Proof. exact step_fail_insn. Qed.
+
+(* fallible_sites_exact.  For every program p and every function compile_prog
+   produces for it (the toplevel and every def at any depth; compiled_from names
+   the syntax each was compiled from): the fallible instructions of its code,
+   read in code order as (operation, carried position), are EXACTLY the
+   operations the specification lists for the function's statements, in
+   evaluation order -- none missing, none extra, each with the position of its
+   own token (operator / '(' / '[' / '.' / ':' / `for` / `load` / name).
+   By induction over the generator, through break/continue patching and jump
+   resolution, for conditions compiled as branches as well as values. *)
+Theorem fallible_sites_exact :
+  forall p fc ls body, compiled_from p fc ls body -> sites (fc_code fc) = op_pos_block p ls body.
+Proof. exact fallible_sites_exact_lemma. Qed.
+
+(* compiled_from covers every function of the compiled program *)
+Theorem compiled_from_covers :
+  forall p fc,
+    fc = cp_top (compile_prog p) \/ List.In fc (map snd (cp_funs (compile_prog p))) ->
+    exists ls body, compiled_from p fc ls body.
+Proof. exact compiled_from_complete. Qed.
+
+(* fallible_has_pos.  Every instruction of generated code whose opcode is fallible
+   carries a position, and it is the position of an operation of that kind in
+   the syntax the function was compiled from. *)
+Theorem fallible_has_pos :
+  forall p fc ls body, compiled_from p fc ls body ->
+  forall i, List.In i (fc_code fc) -> fallible (op i) = true ->
+    exists k ps, insn_pos i = Some ps /\ site_of i = [(k, ps)] /\ List.In (k, ps) (op_pos_block p ls body).
+Proof. exact fallible_has_pos_lemma. Qed.
+
+(* Table level, for ANY instruction list of Model.v (whatever other instructions
+   carry): an instruction that has a position of its own (line <> 0) and lies at a
+   smaller pc than every later instruction gets its own position back from the
+   specification's lookup at its pc. *)
+Theorem positioned_pc_reports_own_row :
+  forall insns n t,
+    nth_error insns n = Some t -> r_line t <> 0 ->
+    (forall k r, (n < k)%nat -> nth_error insns k = Some r -> r_pc t < r_pc r) ->
+    lookup_spec (rows_of insns) (r_pc t) = (r_line t, r_col t).
+Proof. exact own_row_wins. Qed.
+
+(* The composition with position_of_encoded.  code_rows addr code: the
+   (pc, line, col) of every instruction as generate sees them (line = 0 when the
+   instruction carries none), for any strictly increasing assignment addr of
+   uint32 addresses to the instructions.  Source positions are those generate can
+   record (pos_ok: 1 <= line, line and col within int32).  Then for every
+   fallible instruction, Position over decodeLNT of the table generate builds,
+   asked at that instruction's pc, returns the instruction's own position --
+   which is the position of an operation of the function's syntax. *)
+Theorem fallible_pc_reports_own_position :
+  forall p fc ls body, compiled_from p fc ls body ->
+  forall addr : nat -> Z,
+    (forall a b, (a < b)%nat -> addr a < addr b) ->
+    (forall k, (k < List.length (fc_code fc))%nat -> in_uint32 (addr k) = true) ->
+    Z.of_nat (List.length (fc_code fc)) <= max_int64 ->
+    Forall (fun s => pos_ok (snd s)) (op_pos_block p ls body) ->
+  forall fline fcol, in_int32 fline = true -> in_int32 fcol = true ->
+  forall n i,
+    nth_error (fc_code fc) n = Some i -> fallible (op i) = true ->
+    exists k ps,
+      site_of i = [(k, ps)] /\ List.In (k, ps) (op_pos_block p ls body) /\
+      position_of_code fline fcol (code_rows addr (fc_code fc)) (addr n)
+      = Model.Ok (Z.of_nat (fst ps), Z.of_nat (snd ps)).
+Proof. exact fallible_pc_reports_own_position_lemma. Qed.
+
+(* failing_pc_reports_operation.  Whenever a step of the machine fails, in any
+   state whose innermost frame runs the code of a function of the compiled
+   program, with error position pfail: the position the frame reports for its pc
+   (Position over the decoded table) is pfail, and pfail is the position of an
+   operation of the function's syntax -- the failing operation's, not an earlier
+   instruction's. *)
+Theorem failing_pc_reports_operation :
+  forall p fc ls body, compiled_from p fc ls body ->
+  forall addr : nat -> Z,
+    (forall a b, (a < b)%nat -> addr a < addr b) ->
+    (forall k, (k < List.length (fc_code fc))%nat -> in_uint32 (addr k) = true) ->
+    Z.of_nat (List.length (fc_code fc)) <= max_int64 ->
+    Forall (fun s => pos_ok (snd s)) (op_pos_block p ls body) ->
+  forall fline fcol, in_int32 fline = true -> in_int32 fcol = true ->
+  forall cp fname s f rest pfail ic w',
+    vs_frames s = f :: rest -> fr_code f = fc_code fc ->
+    VM.step cp fname s = Stop (VFail pfail ic w') ->
+    position_of_code fline fcol (code_rows addr (fc_code fc)) (addr (fr_pc f))
+    = Model.Ok (Z.of_nat (fst pfail), Z.of_nat (snd pfail)) /\
+    exists k, List.In (k, pfail) (op_pos_block p ls body).
+Proof. exact failing_pc_reports_operation_lemma. Qed.
+
+(* ---- the hypotheses are satisfiable: a function with a call, an index and a
+   binary operator on three different lines
+
+     def f(a, b):          # line 1
+         x = g(a)          # line 2, '(' at column 10
+         y = a[b]          # line 3, '[' at column 10
+         return x + y      # line 4, '+' at column 14
+     (def g(v): return v   # line 6) *)
+Open Scope string_scope.
+Definition exf_body : list stmt :=
+  [ SAssign (TName "x" (2, 5)%nat) (ECall (EName "g" (2, 9)%nat) [APos (EName "a" (2, 11)%nat)] (2, 10)%nat) (2, 7)%nat;
+    SAssign (TName "y" (3, 5)%nat) (EIndex (EName "a" (3, 9)%nat) (EName "b" (3, 11)%nat) (3, 10)%nat) (3, 7)%nat;
+    SReturn (Some (EBinary Add (4, 14)%nat (EName "x" (4, 12)%nat) (EName "y" (4, 16)%nat))) ].
+Definition exf_fd : fundef :=
+  {| fd_name := "f"; fd_params := [PPlain "a"; PPlain "b"]; fd_body := exf_body; fd_pos := (1, 1)%nat |}.
+Definition exf_prog : program :=
+  {| p_opts := {| o_set := false; o_while := false; o_recursion := false; o_toplevel := false |};
+     p_body := [ SDef 0 "g" [PPlain "v"] [SReturn (Some (EName "v" (6, 12)%nat))] (6, 1)%nat;
+                 SDef 1 "f" [PPlain "a"; PPlain "b"] exf_body (1, 1)%nat ] |}.
+Definition exf_fc : funcode := compile_fun exf_prog exf_fd.
+
+Example exf_compiled_from : compiled_from exf_prog exf_fc (layout exf_fd) (fd_body exf_fd).
+Proof. apply (cf_def exf_prog 1%nat exf_fd). cbn. right. left. reflexivity. Qed.
+
+Example exf_code :
+  fc_code exf_fc =
+  [ GLOBAL 0 (2, 9)%nat; LOCAL 0 (2, 11)%nat; CALL 0 1 0 (2, 10)%nat; SETLOCAL 2;
+    LOCAL 0 (3, 9)%nat; LOCAL 1 (3, 11)%nat; INDEX (3, 10)%nat; SETLOCAL 3;
+    LOCAL 2 (4, 12)%nat; LOCAL 3 (4, 16)%nat; BINARY Add (4, 14)%nat; RETURN; NONE; RETURN ].
+Proof. vm_compute. reflexivity. Qed.
+
+Example exf_operations :
+  op_pos_block exf_prog (layout exf_fd) exf_body =
+  [ (KVarRead, (2, 9)%nat); (KVarRead, (2, 11)%nat); (KCall 1 0 false false, (2, 10)%nat);
+    (KVarRead, (3, 9)%nat); (KVarRead, (3, 11)%nat); (KIndex, (3, 10)%nat);
+    (KVarRead, (4, 12)%nat); (KVarRead, (4, 16)%nat); (KBinary Add, (4, 14)%nat) ].
+Proof. vm_compute. reflexivity. Qed.
+
+Example exf_positions_ok : Forall (fun s => pos_ok (snd s)) (op_pos_block exf_prog (layout exf_fd) exf_body).
+Proof. rewrite exf_operations. repeat constructor; vm_compute; discriminate. Qed.
+
+Example exf_addr_ok : forall k, (k < List.length (fc_code exf_fc))%nat -> in_uint32 (Z.of_nat k) = true.
+Proof.
+  rewrite exf_code. cbn [List.length]. intros k Hk. unfold in_uint32, max_uint32. lia.
+Qed.
+
+(* the machine fails at the INDEX (pc 6) on an int receiver: the error position,
+   and the position the table reports for pc 6, are those of the '[' on line 3 *)
+Definition exf_state : vstate :=
+  {| vs_frames := [ {| fr_fid := Some 1%nat; fr_code := fc_code exf_fc; fr_pc := 6; fr_stack := [VInt 1; VInt 1];
+                       fr_locals := [Some (VInt 1); Some (VInt 1); Some (VInt 1); None]; fr_iters := []; fr_free := [] |} ];
+     vs_g := []; vs_w := empty_world |}.
+
+Example exf_fails :
+  VM.step (compile_prog exf_prog) (fun _ => "") exf_state = Stop (VFail (3, 10)%nat false empty_world).
+Proof. vm_compute. reflexivity. Qed.
+
+Example exf_reported :
+  map (position_of_code 1 1 (code_rows Z.of_nat (fc_code exf_fc))) [2; 3; 6; 7; 10; 13]
+  = [Model.Ok (2, 10); Model.Ok (2, 10); Model.Ok (3, 10); Model.Ok (3, 10); Model.Ok (4, 14); Model.Ok (4, 14)].
+Proof. vm_compute. reflexivity. Qed.
+
+(* all hypotheses of failing_pc_reports_operation at once, on this function and failing state *)
+Example exf_theorem_applies :
+  position_of_code 1 1 (code_rows Z.of_nat (fc_code exf_fc)) 6 = Model.Ok (3, 10) /\
+  exists k, List.In (k, (3, 10)%nat) (op_pos_block exf_prog (layout exf_fd) exf_body).
+Proof.
+  refine (failing_pc_reports_operation exf_prog exf_fc _ _ exf_compiled_from Z.of_nat _ exf_addr_ok _
+            exf_positions_ok 1 1 eq_refl eq_refl (compile_prog exf_prog) (fun _ => "") exf_state _ []
+            (3, 10)%nat false empty_world eq_refl eq_refl exf_fails).
+  - intros a b H. lia.
+  - rewrite exf_code. vm_compute. discriminate.
+Qed.
+
+(* ---- the folding of + chains (fcomp.plus; Compile.fold_expr / fold_stmt / fold_prog)
+
+   fold_keeps_positions.  In any scope, every operation of a folded block is an
+   operation of the source block: same kind, same position.  The pass invents no
+   position and moves none to another token.  (Inclusion only, and rightly so:
+   exh below -- merging  x + [a] + [g(a)]  into  x + [a, g(a)]  drops the second
+   + and evaluates the first after the call.) *)
+Theorem fold_keeps_positions :
+  forall p ls ss, incl (op_pos_block p ls (map (fold_stmt 1000) ss)) (op_pos_block p ls ss).
+Proof. exact fold_block_incl_lemma. Qed.
+
+(* folded_fallible_has_pos.  Folding then generating (what compile.go's expr does
+   with a resolved tree): for every program p and every function of
+   compile_prog (fold_prog p), every fallible instruction carries the position
+   of an operation of that kind in the SOURCE of that function (the body of p,
+   or of the def of p it is the folded copy of), read in p's own global scope. *)
+Theorem folded_fallible_has_pos :
+  forall p fc ls body', compiled_from (fold_prog p) fc ls body' ->
+  exists body, source_of p body /\
+    forall i, List.In i (fc_code fc) -> fallible (op i) = true ->
+      exists k ps, insn_pos i = Some ps /\ site_of i = [(k, ps)] /\ List.In (k, ps) (op_pos_block p ls body).
+Proof. exact folded_fallible_has_pos_lemma. Qed.
+
+(*   def h(x, a):                       # line 1
+         return x + [a] + [g(a)]        # line 2: + at 14 and 20, '(' at 24 *)
+Definition exh_body : list stmt :=
+  [ SReturn (Some (EBinary Add (2, 20)%nat
+                     (EBinary Add (2, 14)%nat (EName "x" (2, 12)%nat) (EList [EName "a" (2, 17)%nat]))
+                     (EList [ECall (EName "g" (2, 23)%nat) [APos (EName "a" (2, 25)%nat)] (2, 24)%nat]))) ].
+Definition exh_folded_body : list stmt :=
+  [ SReturn (Some (EBinary Add (2, 14)%nat (EName "x" (2, 12)%nat)
+                     (EList [EName "a" (2, 17)%nat;
+                             ECall (EName "g" (2, 23)%nat) [APos (EName "a" (2, 25)%nat)] (2, 24)%nat]))) ].
+Definition exh_prog : program :=
+  {| p_opts := {| o_set := false; o_while := false; o_recursion := false; o_toplevel := false |};
+     p_body := [ SDef 0 "g" [PPlain "v"] [SReturn (Some (EName "v" (6, 12)%nat))] (6, 1)%nat;
+                 SDef 1 "h" [PPlain "x"; PPlain "a"] exh_body (1, 1)%nat ] |}.
+Definition exh_fd' : fundef :=
+  {| fd_name := "h"; fd_params := [PPlain "x"; PPlain "a"]; fd_body := exh_folded_body; fd_pos := (1, 1)%nat |}.
+
+Example exh_folds : map (fold_stmt 1000) exh_body = exh_folded_body.
+Proof. vm_compute. reflexivity. Qed.
+
+Example exh_compiled_from :
+  compiled_from (fold_prog exh_prog) (compile_fun (fold_prog exh_prog) exh_fd') (layout exh_fd') (fd_body exh_fd').
+Proof. apply (cf_def (fold_prog exh_prog) 1%nat exh_fd'). vm_compute. right. left. reflexivity. Qed.
+
+Example exh_code :
+  fc_code (compile_fun (fold_prog exh_prog) exh_fd') =
+  [ LOCAL 0 (2, 12)%nat; LOCAL 1 (2, 17)%nat; GLOBAL 0 (2, 23)%nat; LOCAL 1 (2, 25)%nat; CALL 0 1 0 (2, 24)%nat;
+    MAKELIST 2; BINARY Add (2, 14)%nat; RETURN; NONE; RETURN ].
+Proof. vm_compute. reflexivity. Qed.
+
+(* source order: x, a, +@14, g, a, call, +@20;  folded: x, a, g, a, call, +@14 *)
+Example exh_source_operations :
+  op_pos_block exh_prog (layout exh_fd') exh_body =
+  [ (KVarRead, (2, 12)%nat); (KVarRead, (2, 17)%nat); (KBinary Add, (2, 14)%nat); (KVarRead, (2, 23)%nat);
+    (KVarRead, (2, 25)%nat); (KCall 1 0 false false, (2, 24)%nat); (KBinary Add, (2, 20)%nat) ].
+Proof. vm_compute. reflexivity. Qed.
+
+Example exh_folded_operations :
+  op_pos_block exh_prog (layout exh_fd') exh_folded_body =
+  [ (KVarRead, (2, 12)%nat); (KVarRead, (2, 17)%nat); (KVarRead, (2, 23)%nat); (KVarRead, (2, 25)%nat);
+    (KCall 1 0 false false, (2, 24)%nat); (KBinary Add, (2, 14)%nat) ].
+Proof. vm_compute. reflexivity. Qed.
